@@ -215,14 +215,14 @@ Add ==
      /\ \E p \in MaybeNull(Objs), key \in KeyArgs, i \in MaybeNull(Loose) :
         /\ (p # NULL /\ i # NULL /\ p # i) => CanHold(p, i)
         /\ Take(<<"AddItemToObjectCS", p, key, i, 0>>, AddItemToObject(h, roots, p, key, i, TRUE, 0))
-  \/ /\ F("ref") /\ HasFree(h, 1)
+  \/ /\ (F("ref") \/ F("refarr")) /\ HasFree(h, 1)
      /\ \/ \E p \in MaybeNull(Arrs), item \in MaybeNull(Live(h)), f \in Fails(1) :
-             /\ F("arr")
+             /\ (F("arr") \/ F("refarr"))
              /\ (p # NULL /\ item # NULL) => p \notin SubAll(h, item, N)
              /\ TakeF(<<"AddItemReferenceToArray", p, item, f>>, f, AddItemReferenceToArray(h, roots, p, item, f),
                       AddItemReferenceToArray(h, roots, p, item, 0))
         \/ \E p \in MaybeNull(Objs), key \in KeyArgs, item \in MaybeNull(Live(h)), f \in Fails(2) :
-             /\ F("obj")
+             /\ F("obj") /\ F("ref")
              /\ (p # NULL /\ item # NULL) => p \notin SubAll(h, item, N)
              /\ TakeF(<<"AddItemReferenceToObject", p, key, item, f>>, f, AddItemReferenceToObject(h, roots, p, key, item, f),
                       AddItemReferenceToObject(h, roots, p, key, item, 0))
@@ -239,7 +239,7 @@ Detach ==
         /\ (p # NULL /\ i # NULL) => (i \in Range(Kids(h, p)) \/ i \in roots)
         /\ Take(<<"DetachItemViaPointer", p, i>>, DetachItemViaPointer(h, roots, p, i))
   \/ \E p \in MaybeNull(Arrs), idx \in -1..N :
-        /\ F("arr")
+        /\ (F("arr") \/ F("detarr"))
         /\ p # NULL => idx <= Len(Kids(h, p))
         /\ Take(<<"DetachItemFromArray", p, idx>>, DetachItemFromArray(h, roots, p, idx))
   \/ \E p \in MaybeNull(Objs), name \in QKeyArgs, cs \in BOOLEAN :
@@ -268,7 +268,7 @@ Insert ==
      /\ Take(<<"InsertItemInArray", p, idx, i>>, InsertItemInArray(h, roots, p, idx, i))
 
 Replace ==
-  /\ F("replace")
+  /\ (F("replace") \/ F("replobj"))
   /\ \/ \E p \in MaybeNull(Conts), item \in MaybeNull(Live(h)), r \in MaybeNull(Loose) :
           /\ F("ptr")
           /\ (p # NULL /\ item # NULL) => (item \in Range(Kids(h, p)) /\ Releasable(h, item))
@@ -283,7 +283,7 @@ Replace ==
           /\ (p # NULL /\ r # NULL) => CanHold(p, r)
           /\ Take(<<"ReplaceItemInArray", p, idx, r>>, ReplaceItemInArray(h, roots, p, idx, r))
      \/ \E p \in MaybeNull(Objs), name \in QKeyArgs, r \in MaybeNull(Loose), cs \in BOOLEAN, f \in Fails(1) :
-          /\ F("obj")
+          /\ (F("obj") \/ F("replobj"))
           /\ (p # NULL /\ name # NoStr) => LET m == ObjectItem(h, p, name, cs) IN m # NULL => Releasable(h, m)
           /\ (p # NULL /\ r # NULL) => CanHold(p, r)
           /\ TakeF(<<IF cs THEN "ReplaceItemInObjectCaseSensitive" ELSE "ReplaceItemInObject", p, name, r, f>>, f,
@@ -430,6 +430,12 @@ Strs1 == {<<120>>}
 StrSeq1 == <<<<120>>>>
 KindsA == {"arr"}
 FeatRK == {"obj", "ref"}
+\* a reference node inherits the constant-key bit of the item it refers to, loses it again when it is given a key of its own
+FeatRC == {"cs", "refarr", "detarr", "replobj"}
+KindsNAO == {"null", "arr", "obj"}
+KindsAO == {"arr", "obj"}
+\* sorting members that were attached with constant keys (nested objects carry the flag in their type word)
+FeatSortCS == {"objadd", "cs", "sort"}
 FeatR == {"arr", "obj", "ref", "cs", "dup", "sethelpers", "replace"}
 FeatF == {"arr", "obj", "ref", "fail", "bulk", "dup", "addnew", "sethelpers", "replace"}
 FeatD == {"arr", "obj", "ptr", "ref", "cs", "dup", "sethelpers"}
